@@ -82,6 +82,16 @@ def correspondence(ctx):
             infos.append((cells, B, outs, per, first_n))
         answers = drv.run(reqs)
         for (cells, B, outs, per, first_n), out in zip(infos, answers):
+            # is this file an INSTANCE of C19.decode_prefix_safe / decode_prefix_safe_py?  (wf cells, coherent cells,
+            # and the bytes whose prefixes were read are encode cells = encodePy cells)
+            inst = out.get("wf") and out.get("coherent") and out.get("fileIsEncode") and out.get("fileIsEncodePy")
+            ctx.count("theorem-instance/yes" if inst else "theorem-instance/no (wf=%s coherent=%s file=encode:%s file=encodePy:%s)"
+                      % (out.get("wf"), out.get("coherent"), out.get("fileIsEncode"), out.get("fileIsEncodePy")))
+            if out.get("wf") and not out.get("fileIsEncodePy"):
+                ctx.disagree("the file to_binary wrote = Model.encodePy cells (the file whose prefixes are read is the model's file)",
+                             {"cells": cells, "file": B.hex()})
+            if inst and out["modelOk"] + out["modelErr"] != len(B):
+                raise common.Infra("prefixes: not every offset was answered")
             for j, ok in enumerate(out["spec"]):
                 if not ok:
                     ctx.fail("a strict prefix of a valid file was read as something other than the leading cells",
@@ -90,8 +100,8 @@ def correspondence(ctx):
                 ctx.disagree("from_binary(file[:n]) vs Model.decode(bytes[:n])",
                              {"cells": cells, "file": B.hex(), "n": mm["n"]}, model=mm["model"],
                              impl="raised" if mm["impl"] < 0 else outs[mm["impl"]])
-            ctx.count("model/ok", out["modelOk"])
-            ctx.count("model/err", out["modelErr"])
+            ctx.count("model/ok" if inst else "model-outside-theorem/ok", out["modelOk"])
+            ctx.count("model/err" if inst else "model-outside-theorem/err", out["modelErr"])
 
         # compressed flavour: every truncation must raise
         gz_tris = c05.make_triangles(ctx, n_gz, small=True)
